@@ -35,22 +35,35 @@ FACES = [
     ("bloch0/periodic/pml", {"x": "bloch", "y": "periodic", "z": "pml"}, 1),
 ]
 W = {"wavelength": 0.6e-6}
-SOURCES = [
-    ("plane+z", dict(kind="plane", box=[[0, 5], [0, 5], [2, 3]], direction="+", fixed_E_polarization_vector=[1, 0, 0], wave=W)),
-    ("none", None),
-    ("dipEz", dict(kind="dipole", box=[[2, 3], [2, 3], [3, 4]], polarization=2, wave=W)),
-    ("dipMx", dict(kind="dipole", box=[[2, 3], [2, 3], [3, 4]], polarization=0, source_type="magnetic", wave=W)),
-    ("gauss-z", dict(kind="gauss", box=[[0, 5], [0, 5], [3, 4]], direction="-", fixed_E_polarization_vector=[0, 1, 0], radius=100e-9, wave=W)),
-    ("plane+x-pulse", dict(kind="plane", box=[[2, 3], [0, 5], [0, 6]], direction="+", fixed_E_polarization_vector=[0, 0, 1], wave=W, profile=dict(kind="gauss", spectral_width={"frequency": 1.6e15}, center_wave=W), switch=dict(interval=2))),
-]
 WC = [W]
-DETS = [
-    ("field+energy", [dict(kind="field", box=[[1, 3], [2, 3], [2, 4]]), dict(kind="energy", box=[[2, 3], [2, 3], [3, 4]])]),
-    ("poynting+phasor", [dict(kind="poynting", box=[[1, 3], [1, 3], [3, 4]], direction="+"), dict(kind="phasor", box=[[2, 3], [1, 3], [2, 3]], wave_characters=WC)]),
-    ("closed+phasorpoynting", [dict(kind="closed", box=[[1, 3], [1, 3], [2, 4]]), dict(kind="phasor_poynting", box=[[1, 3], [2, 3], [2, 4]], direction="-", wave_characters=WC, fixed_propagation_axis=1)]),
-    ("field-raw-edge+energy-reduced", [dict(kind="field", box=[[0, 2], [0, 5], [0, 1]], exact_interpolation=False, components=["Ey", "Hz"]), dict(kind="energy", box=[[0, 5], [0, 2], [4, 6]], reduce_volume=True)]),
-    ("closedphasor+field-reduced", [dict(kind="closed_phasor", box=[[1, 4], [1, 4], [2, 5]], wave_characters=WC), dict(kind="field", box=[[3, 5], [3, 5], [3, 6]], reduce_volume=True, switch=dict(interval=2))]),
-]
+
+
+def sources_for(shape):
+    nx, ny, nz = shape
+    cx, cy = nx // 2, ny // 2
+    return [
+        ("plane+z", dict(kind="plane", box=[[0, nx], [0, ny], [2, 3]], direction="+", fixed_E_polarization_vector=[1, 0, 0], wave=W)),
+        ("none", None),
+        ("dipEz", dict(kind="dipole", box=[[cx, cx + 1], [cy, cy + 1], [3, 4]], polarization=2, wave=W)),
+        ("dipMx", dict(kind="dipole", box=[[cx, cx + 1], [cy, cy + 1], [3, 4]], polarization=0, source_type="magnetic", wave=W)),
+        ("gauss-z", dict(kind="gauss", box=[[0, nx], [0, ny], [3, 4]], direction="-", fixed_E_polarization_vector=[0, 1, 0], radius=100e-9, wave=W)),
+        ("plane+x-pulse", dict(kind="plane", box=[[cx, cx + 1], [0, ny], [0, nz]], direction="+", fixed_E_polarization_vector=[0, 0, 1], wave=W, profile=dict(kind="gauss", spectral_width={"frequency": 1.6e15}, center_wave=W), switch=dict(interval=2))),
+    ]
+
+
+def dets_for(shape):
+    nx, ny, nz = shape
+    return [
+        ("field+energy", [dict(kind="field", box=[[1, 3], [2, 3], [2, 4]]), dict(kind="energy", box=[[2, 3], [2, 3], [3, 4]])]),
+        ("poynting+phasor", [dict(kind="poynting", box=[[1, 3], [1, 3], [3, 4]], direction="+"), dict(kind="phasor", box=[[2, 3], [1, 3], [2, 3]], wave_characters=WC)]),
+        ("closed+phasorpoynting", [dict(kind="closed", box=[[1, 3], [1, 3], [2, 4]]), dict(kind="phasor_poynting", box=[[1, 3], [2, 3], [2, 4]], direction="-", wave_characters=WC, fixed_propagation_axis=1)]),
+        ("field-raw-edge+energy-reduced", [dict(kind="field", box=[[0, 2], [0, ny], [0, 1]], exact_interpolation=False, components=["Ey", "Hz"]), dict(kind="energy", box=[[0, nx], [0, 2], [nz - 2, nz]], reduce_volume=True)]),
+        ("closedphasor+field-reduced", [dict(kind="closed_phasor", box=[[1, nx - 1], [1, ny - 1], [2, nz - 1]], wave_characters=WC), dict(kind="field", box=[[nx - 2, nx], [ny - 2, ny], [nz - 3, nz]], reduce_volume=True, switch=dict(interval=2))]),
+    ]
+
+
+SOURCES = sources_for(SHAPE)
+DETS = dets_for(SHAPE)
 MATS = [
     ("iso", dict(eps={"tier": "iso", "pat": "distinct", "lo": 1.0, "hi": 3.0})),
     ("diag+mu", dict(eps={"tier": "diag", "pat": "distinct", "lo": 1.0, "hi": 3.0}, mu={"tier": "iso", "pat": "seed", "lo": 1.0, "hi": 2.0})),
@@ -65,7 +78,7 @@ def cases(tier, seed):
 
     sizes = [len(FACES), len(SOURCES), len(DETS), len(MATS), len(GRIDS)]
     if tier == "quick":
-        idx = m.enumerate_deviations(sizes, 2, pairs_only={frozenset((0, 2)), frozenset((0, 1))})
+        idx = m.enumerate_deviations(sizes, 2, pairs_only={frozenset((0, 2))})
     else:
         idx = m.enumerate_deviations(sizes, 3)
     return [dict(idx=list(t), seed=seed) for t in idx]
@@ -74,19 +87,21 @@ def cases(tier, seed):
 def bounds(tier, seed):
     return {
         "menus": {"faces": [f[0] for f in FACES], "src": [s[0] for s in SOURCES], "dets": [d[0] for d in DETS], "mats": [x[0] for x in MATS], "grid": [g[0] for g in GRIDS]},
-        "deviation_bound": "quick: <=1 + (faces,dets),(faces,src) pairs; thorough: <=3",
+        "deviation_bound": "quick: <=1 + (faces,dets) pairs; thorough: <=3",
         "rows": "zero + all basis states (E,H,psi) + affinity + detector-cell pairs + zero/dense probes at every t in [0,T)",
         "T": T,
         "tolerance": TOL,
     }
 
 
-def spec_of(case, complex_):
+def spec_of(case, complex_, shape=None):
     from mc import scenes
 
     i = case["idx"]
+    shape = SHAPE if shape is None else shape
     fname, fax, th = FACES[i[0]]
-    spec = dict(shape=SHAPE, faces=scenes.faces_from_axes([fax["x"], fax["y"], fax["z"]]), pml=th, steps=T, seed=case["seed"], grid=GRIDS[i[4]][1])
+    SOURCES, DETS = sources_for(shape), dets_for(shape)
+    spec = dict(shape=shape, faces=scenes.faces_from_axes([fax["x"], fax["y"], fax["z"]]), pml=th, steps=T, seed=case["seed"], grid=GRIDS[i[4]][1])
     spec.update(MATS[i[3]][1])
     if SOURCES[i[1]][1] is not None:
         spec["sources"] = [SOURCES[i[1]][1]]
@@ -128,7 +143,7 @@ def run_case(case):
     assert cA.n == cB.n and not cA.is_complex and cB.is_complex, (cA.n, cB.n, cA.dtype, cB.dtype)
     n = cA.n
     keep = linsys.wall_keep(scA, cA)
-    rows = tables.Rows(n, False, T, t0s=(0, 3), pair_idx=det_cells_index_set(scA, cA), seed=case["seed"], keep=keep)
+    rows = tables.Rows(n, False, T, t0s=(0,), pair_idx=det_cells_index_set(scA, cA), seed=case["seed"], keep=keep)
     YA, OA = tables.run(scA, cA, rows.tvec, rows.X)
     YB, OB = tables.run(scB, cB, rows.tvec, rows.X.astype(np.complex128))
     fails = []
